@@ -984,6 +984,8 @@ class Interp:
         a = self.val(A, s)
         if a.ndim == 1:
             return a
+        if self.M == 1:
+            return np.linalg.det(a[0])[None]
         return self.jet_det(a)
 
     def ev_Inverse(self, e, s):
